@@ -1,12 +1,12 @@
 (* C07 - Tier B: the element formula of _br_term_dense against the operator
-   expression of the Bloch-Redfield term (concrete witness, vm_compute). *)
+   expression of the Bloch-Redfield term (vm_compute on bounded domains). *)
 From Coq Require Import List ZArith Bool Lia.
 Import ListNotations.
 From QV Require Import Model.C07_br.
 Local Open Scope Z_scope.
 
-(* witness: H = sigma_z (eigenbasis), A = sigma_x + sigma_y, white spectrum
-   S(w) = 2, X = |0><1| *)
+(* the former counter-example: H = sigma_z (eigenbasis), A = sigma_x + sigma_y,
+   white spectrum S(w) = 2, X = |0><1| *)
 Definition wA : mat G := [[(0,0); (1,-1)]; [(1,1); (0,0)]].
 Definition wS : mat Z := [[2; 2]; [2; 2]].
 Definition wK : mat Z := [[0; -2]; [2; 0]].
@@ -14,30 +14,43 @@ Definition wX : mat G := [[(0,0); (1,0)]; [(0,0); (0,0)]].
 
 Lemma br_dense_witness :
   is_hermb 2 wA = true /\
-  apply_super 2 (br_dense2 2 wA wS wK None) wX = [[(0,0); (-8,0)]; [(0,-8); (0,0)]] /\
+  apply_super 2 (br_dense2 2 wA wS wK None) wX = [[(0,0); (-8,0)]; [(0,8); (0,0)]] /\
   br_expr2 2 wA wS wX = [[(0,0); (-8,0)]; [(0,8); (0,0)]].
 Proof. vm_compute; repeat split; reflexivity. Qed.
 
-Lemma br_dense_refuted :
-  exists (n : nat) (A : mat G) (S K : mat Z) (X : mat G),
-    is_hermb n A = true /\
-    meqb n (apply_super n (br_dense2 n A S K None) X) (br_expr2 n A S X) = false.
-Proof. exists 2%nat, wA, wS, wK, wX. vm_compute; split; reflexivity. Qed.
+(* bounded domain: every 2x2 matrix with entries in gvals (625 matrices, not
+   only Hermitian ones), two spectra, the four matrix units *)
+Definition gvals : list G := [(0,0); (1,0); (0,1); (1,-1); (-1,2)].
+Definition mats2 : list (mat G) :=
+  flat_map (fun a => flat_map (fun b => flat_map (fun c => map (fun d =>
+    [[a; b]; [c; d]]) gvals) gvals) gvals) gvals.
+Definition units2 : list (mat G) :=
+  [ [[(1,0);(0,0)];[(0,0);(0,0)]]; [[(0,0);(1,0)];[(0,0);(0,0)]];
+    [[(0,0);(0,0)];[(1,0);(0,0)]]; [[(0,0);(0,0)];[(0,0);(1,0)]] ].
+Definition specs2 : list (mat Z) := [wS; [[2; 4]; [0; 2]]].
 
-(* what the element formula does compute on the witness: the expression for
-   the transposed coupling operator (row-major index a*n+b used where the
-   column-stacked index is b*n+a) *)
-Lemma br_dense_is_transposed_on_witness :
-  meqb 2 (apply_super 2 (br_dense2 2 wA wS wK None) wX)
-         (br_expr2 2 (mtr 2 wA) wS wX) = true.
-Proof. vm_compute; repeat split; reflexivity. Qed.
+Lemma br_dense_small_domain :
+  forallb (fun A => forallb (fun S => forallb (fun X =>
+    meqb 2 (apply_super 2 (br_dense2 2 A S wK None) X) (br_expr2 2 A S X))
+    units2) specs2) mats2 = true.
+Proof. vm_compute; reflexivity. Qed.
+
+Lemma br_dense_small_domain_forall :
+  forall A S X, In A mats2 -> In S specs2 -> In X units2 ->
+    meqb 2 (apply_super 2 (br_dense2 2 A S wK None) X) (br_expr2 2 A S X) = true.
+Proof.
+  intros A S X HA HS HX.
+  pose proof br_dense_small_domain as H.
+  rewrite forallb_forall in H. specialize (H A HA).
+  rewrite forallb_forall in H. specialize (H S HS).
+  rewrite forallb_forall in H. exact (H X HX).
+Qed.
 
 (* the trace functional is annihilated on the witness, with and without the
    secular mask *)
 Lemma br_dense_trace_witness :
   forallb (fun cut =>
     forallb (fun X => geqb (mtrace 2 (apply_super 2 (br_dense2 2 wA wS wK cut) X)) g0)
-      [ [[(1,0);(0,0)];[(0,0);(0,0)]]; wX; [[(0,0);(0,0)];[(1,0);(0,0)]];
-        [[(0,0);(0,0)];[(0,0);(1,0)]] ])
+      units2)
     [None; Some 1; Some 3] = true.
-Proof. vm_compute; repeat split; reflexivity. Qed.
+Proof. vm_compute; reflexivity. Qed.
